@@ -521,12 +521,15 @@ func (g *Gen) ArithOp() Input {
 		}
 		return Input{Class: "arith:passthrough", Kind: "arith", Op: op}
 	default:
-		names := []string{"a", "b", "d", "d/x", "d/y", "d/e", "d/e/f", "a/b", "a/b/c", "b/a", "d/x/z"}
+		names := []string{"a", "b", "d", "d/x", "d/y", "d/e", "d/e/f", "a/b", "a/b/c", "b/a", "d/x/z", ""}
 		types := []string{"dir", "reg", "symlink", "hardlink", "hardlink", "hardlink", "other"}
 		op := "tree"
 		for k := 0; k < int(r.Range(0, 7)); k++ {
 			n := names[r.Intn(len(names))]
 			t := types[r.Intn(len(types))]
+			if n == "" && t == "hardlink" {
+				t = "dir" // a root entry that is a hardlink makes Lookup("") answer another entry: not modelled
+			}
 			l := ""
 			if t == "hardlink" || r.Intn(6) == 0 {
 				l = names[r.Intn(len(names))]
